@@ -58,6 +58,32 @@ CHECKS["C13"] = dict(
     design_ref="DESIGN.md section 4 C13",
     note=TB + " Inherited builtin arithmetic slots return the builtin base type (CPython fact).")
 
+CHECKS["C05"] = dict(
+    category="other",
+    technique="shared-state channel analysis: inventory of persistent cells on the API call graph; cache-key completeness, clone-depth, freshness/dominance and read-only-parameter rules",
+    text="Sufficient condition: enumerates every storage cell that outlives an API call and is written on the call graph of Environment()/compile/program/evaluate, "
+         "and shows for each that it cannot carry information from one operation to a later one (complete cache key, per-call namespace, deep clone of the "
+         "runner's activation, bindings loaded only into objects created by the same call, caller's bindings never stored into). No channel implies no history dependence "
+         "for every sequence of operations.",
+    design_ref="DESIGN.md section 4 C05",
+    note=TB + " The call graph is name-resolved and over-approximate.")
+CHECKS["C16"] = dict(
+    category="other",
+    technique="shared-state channel analysis (same inventory as C05) under the stricter rule for concurrently running environments",
+    text="Sufficient condition for every interleaving: no cell reachable from two environments is written while compiling, building or evaluating unless it is a "
+         "per-call object; exec() namespaces must be created by the call; the process-wide parser cache must be keyed completely and not re-read during parse(). "
+         "Idempotent constant process settings are listed.",
+    design_ref="DESIGN.md section 4 C16",
+    note=TB + " Third-party objects shared between threads (the lark parser) are assumed thread-safe for parse().")
+CHECKS["C08"] = dict(
+    category="other",
+    technique="operator chain agreement through grammar/dispatch tables; decorator and delegation checks on the comparison cells; De Morgan duality of the container folds",
+    text="Decides the plumbing of equality and ordering: every relation token reaches the Python comparison of the same name with operands in order in both engines; "
+         "numeric comparison overrides are type-matched and delegate to the builtin of the same name; every ordered class resolves each comparison to a builtin slot or "
+         "such a delegate; List/Map != is the exact dual of == over the same element pairing. The order laws themselves are CPython's.",
+    design_ref="DESIGN.md section 4 C08",
+    note=TB)
+
 PENDING = {}  # property id -> reason, for properties not claimed
 
 def main():
